@@ -42,6 +42,9 @@ LETTERS = [
 PLAIN_LETTERS = [
     ('chr1', 0, 10, 1), ('chr1', 0, 41, 1), ('chr1', 0, 49, 1), ('chr1', 10, 49, 1), ('chr1', 41, 49, 1), ('chr1', 45, 49, 1),
     ('chr1', 62, 100, 1), ('chr1', 5, 10, 1), ('chr1', 5, 15, 2), ('chr1', 41, 62, 2), ('chr1', 41, 80, 2),
+    # a fragment ((5,10)) can fit two molecules of the same cell that share no coordinate ((0,10) by its end, (5,15) by its
+    # start): which one it joins depends on the ORDER of the buffer, which ejecting an older, far-away molecule must not change
+    ('chr1', 5, 15, 1), ('chr1', -70, -60, 2),
     ('chr2', 0, 10, 1), ('chr2', 10, 49, 1),      # same coordinates as chr1 letters, on another contig
     # a read pair whose mates map to the SAME strand (forward/forward): its span ends at the start of the right mate
     # (45), its last aligned base lies 20 further (65)
@@ -54,7 +57,7 @@ def bounds(tier):
     return {'max_fragments': 5 if tier == 'quick' else 6, 'letters': LETTERS, 'sites': S, 'cache_sizes': [100, 1000],
             'classes': ['nla', 'chic0', 'chic15'] if tier == 'thorough' else ['nla', 'chic15'],
             'eject_every': 'None,0..n', 'pooling': [0, 1], 'plain_letters(contig,start,end,cell)': PLAIN_LETTERS,
-            'plain_max_fragments': 5 if tier == 'quick' else 6}
+            'plain_max_fragments': 4 if tier == 'quick' else 5}
 
 
 def build_plain(word):
